@@ -244,10 +244,21 @@ Definition s_xor (a b : term) : term :=
        | None => TOp2 XOR a b
        end.
 
+(* (c & y) << s = y << s when c keeps every bit that survives the shift *)
+Definition shl_mask_view (a b : term) : option term :=
+  match a, b with
+  | TConst s, TOp2 AND (TConst c) y =>
+    if (0 <=? s) && (s <? 256) && (Z.land c (Z.ones (256 - s)) =? Z.ones (256 - s)) then Some y else None
+  | _, _ => None
+  end.
+
 Definition s_shift (o : op2) (a b : term) : term :=
   if is_c a 0 then b else if is_c b 0 then TConst 0
   else if big_shift a && negb (op2_eqb o SAR) then TConst 0       (* logical shifts by 256 or more *)
-  else TOp2 o a b.
+  else match (if op2_eqb o SHL then shl_mask_view a b else None) with
+       | Some y => TOp2 SHL a y
+       | None => TOp2 o a b
+       end.
 
 Definition both_const (a b : term) : option (Z * Z) :=
   match a, b with TConst x, TConst y => Some (x, y) | _, _ => None end.
